@@ -116,6 +116,10 @@ func keyCases() []keyCase {
 					add("Alt+"+string(c), c, mAlt, "")
 				}
 			}
+			// the other control codes of the 0x40 column (NUL, FS, GS, RS, US)
+			for _, c := range "@\\]^_" {
+				add("Ctrl+"+string(c), c, mCtrl, "")
+			}
 			add("Tab", vaxis.KeyTab, 0, "")
 			add("Shift+Tab", vaxis.KeyTab, mShift, "")
 			add("Enter", vaxis.KeyEnter, 0, "")
